@@ -231,3 +231,19 @@ CLAIMED["C19"] = dict(
   note=("Trusted: as C01; CPython's re.escape (probed per character) and str(bytes,'utf-8','strict') (model Esc.decode validated on random and malformed byte strings). "
         "Partial: 'the parser reads re.escape(t) as the literal regex' is proved for strings of length <= 2 over the alphabet, validated beyond."),
   design="§6 C19")
+
+CLAIMED["C17"] = dict(
+  technique="Lean 4 proof: refinement of the lru_cache'd engine to the cache-free function by induction over every call history, plus a regenerated inventory of all process-wide mutable state pinned by a theorem",
+  text=("Theorems: C17_history - for EVERY history of class creations and operations (any function of cls.regex() and its own arguments - parse, gen_format, regex, format, "
+        "comparisons - on any class, failing or not, in any order, hence every interleaving of atomic steps of concurrent threads) from any cache state holding only correctly "
+        "computed tables, every call returns what it returns with no cache at all; C17_fresh - the same as from the empty cache of a fresh interpreter; C17_call_alone - the "
+        "result of a call is a function of the classes created before it and of its own arguments, no other call appears in it; C17_inventory - the complete inventory of "
+        "process-wide mutable state in fmtutil (module-level containers, class-level containers, functools caches), regenerated by the translator from the imported modules on "
+        "every run, is exactly the audited list: two regex() caches and read-only lookup tables; C17_cache_key - the cache is keyed by the class alone. A new module-level "
+        "dict, memo or cache changes the inventory and the proof no longer checks; then (and on every run anyway) the sweep searches the real code: every pool item's outcome "
+        "in random call orders and under 2..16 threads with a 1 microsecond switch interval is compared with its outcome alone in a fresh interpreter, and instances are "
+        "snapshotted around format/valid/comparison/hash/arithmetic/values/to_const."),
+  note=("Trusted: as C01; extract_shared_state's notion of mutable state (dict/list/set/bytearray objects and functools caches reachable as module or class attributes; closures and "
+        "instance state are per call by construction and covered by the sweep only); steps are atomic in the model - real preemption inside lru_cache and dict operations is "
+        "exercised by the threaded sweep, not proved. Immutability of instances holds in the model by construction."),
+  design="§6 C17")
